@@ -61,6 +61,32 @@ func (s SchemaSchema) applyNamespace() {
 	}
 }
 
+// validateReferences reports references that are still unlinked after applyNamespace. A plugin schema stands
+// alone: nobody can supply another namespace to it later.
+func (s SchemaSchema) validateReferences() error {
+	for _, step := range s.StepsValue {
+		if err := step.InputValue.ValidateReferences(); err != nil {
+			return err
+		}
+		for _, output := range step.OutputsValue {
+			if err := output.ValidateReferences(); err != nil {
+				return err
+			}
+		}
+		for _, signal := range step.SignalHandlersValue {
+			if err := signal.DataSchemaValue.ValidateReferences(); err != nil {
+				return err
+			}
+		}
+		for _, signal := range step.SignalEmittersValue {
+			if err := signal.DataSchemaValue.ValidateReferences(); err != nil {
+				return err
+			}
+		}
+	}
+	return nil
+}
+
 func NewCallableSchema(
 	steps ...CallableStep,
 ) *CallableSchema {
